@@ -284,6 +284,17 @@ func runC14Driver(c bson.D, x *Ctx) (err error) {
 	if !equalUpToFieldOrder(one, r1[0]) {
 		return fmt.Errorf("FindOne projects differently from Find: %s vs %s", show(one), show(r1[0]))
 	}
+	// every document of a multi-document Find is projected on its own: the
+	// second result equals the single-document projection of that document
+	if len(r1) == 2 {
+		var oneOther bson.D
+		if e := coll.FindOne(ctx, bson.D{{Key: "_id", Value: int32(99)}}, options.FindOne().SetProjection(proj)).Decode(&oneOther); e != nil {
+			return fmt.Errorf("FindOne of the second document with an accepted projection failed: %v", e)
+		}
+		if !equalUpToFieldOrder(oneOther, r1[1]) {
+			return fmt.Errorf("the second document of Find with projection %s is %s, projected alone it is %s", show(proj), show(r1[1]), show(oneOther))
+		}
+	}
 	// every leaf of the result is a stored value at the same path (sub-document
 	// relation), for projections without $slice / $elemMatch
 	plain := true
